@@ -117,6 +117,10 @@ func (cl *CmdLine) Parse(args []string) []string {
 			switch {
 			case arg == "--":
 				state = collectRemainingState
+			case arg == "-":
+				// A lone "-" is not an option (by convention it names standard input): it is the first positional argument
+				remainingArgs = append(remainingArgs, arg)
+				state = collectRemainingState
 			case strings.HasPrefix(arg, "--"):
 				var value string
 				arg = arg[2:]
